@@ -14,6 +14,7 @@ import (
 	"sort"
 	"strconv"
 	"strings"
+	"time"
 )
 
 // Case is one evaluated case: the replayable input, the Coq term carrying the input together with
@@ -96,10 +97,36 @@ func Main(p Prop, args []string) {
 		}
 	}
 	cases := make([]Case, len(inputs))
+	limit := 30 * time.Second
+	if v, err := strconv.Atoi(os.Getenv("VERIF_CASE_TIMEOUT")); err == nil && v > 0 {
+		limit = time.Duration(v) * time.Second
+	}
+	var hung []int
 	for i, in := range inputs {
-		cases[i] = p.Run(in)
+		// a case that does not come back (an endless loop in the implementation) must not take the whole run with it: it is
+		// reported as a violation with this input (its place in the case file is taken by a copy of a finished case)
+		done := make(chan Case, 1)
+		go func(in any) { done <- p.Run(in) }(in)
+		select {
+		case cases[i] = <-done:
+		case <-time.After(limit):
+			cases[i] = Case{GoViol: fmt.Sprintf("the implementation did not return within %s on this input", limit)}
+			hung = append(hung, i)
+		}
 		if cases[i].Input == nil {
 			cases[i].Input = in
+		}
+	}
+	for _, i := range hung {
+		for j := range cases {
+			if cases[j].Coq != "" {
+				cases[i].Coq, cases[i].Sig = cases[j].Coq, fmt.Sprintf("hung-%d", i)
+				break
+			}
+		}
+		if cases[i].Coq == "" {
+			fmt.Fprintln(os.Stderr, "every case hung")
+			os.Exit(2)
 		}
 	}
 	WriteCases(p, *seed, cases, *out, nil)
